@@ -25,7 +25,8 @@ LEVEL_TEXT = ("Lean theorems for ALL finite projects (any number of targets, any
               "before the fix is modelled separately and refuted by two Lean-checked witnesses (diamond; partial-order sort).")
 LEVEL_NOTE = ("trusted: Lean kernel; axioms propext/Quot.sound (Classical.choice not needed); hand model <-> source correspondence is "
               "exhaustive only up to 5 targets (plus random larger graphs), not proved; Python sets/sorted()/list are modelled by "
-              "lists of name ranks; task execution itself, macro expansion, project.default and the XML recipe loader are outside the model")
+              "lists of name ranks; task execution itself, macro expansion, project.default and the XML recipe loader are outside the model; "
+              "the driver is run as leanc-compiled code (cross-checked against `lean --run` on ~900 requests per run)")
 TECHNIQUE = "Lean 4 proof by functional induction over a hand model of the DFS + exhaustive differential correspondence with the real TaskRunner"
 RULE = ("case = (labelled dependency graph, request list). Exhaustive: every digraph without self-loops on n<=4 (quick) / n<=5 "
         "(thorough) targets x every non-empty request subset (sorted), every digraph WITH self-loops on n<=3 (quick) / n<=4 "
